@@ -107,7 +107,7 @@ def rand_script(rnd, maxlen):
     return out + ["destroy"]
 
 
-def run_driver(exe, execs, tag, timeout=900, block_ms=25):
+def run_driver(exe, execs, tag, timeout=900, block_ms=25, max_hangs=1000):
     d = os.path.join(WORK, "run", tag)
     os.makedirs(d, exist_ok=True)
     inp = os.path.join(d, "sched-%d.ndjson" % os.getpid())
@@ -115,6 +115,7 @@ def run_driver(exe, execs, tag, timeout=900, block_ms=25):
     results = {}
     pending = list(range(len(execs)))
     rounds = 0
+    hangs = 0
     while pending and rounds < 50:
         rounds += 1
         with open(inp, "w") as f:
@@ -147,6 +148,12 @@ def run_driver(exe, execs, tag, timeout=900, block_ms=25):
         if rc == "timeout" and nxt:
             results[nxt[0]] = {"id": nxt[0], "hang": True, "events": []}
             nxt = nxt[1:]
+            hangs += 1
+            if hangs >= max_hangs:
+                # enough evidence; the remaining executions are not run (they are reported as not executed, not as accepted)
+                for i in nxt:
+                    results[i] = {"id": i, "skipped": True, "events": []}
+                nxt = []
         elif rc != 3 and got == 0:
             raise InfraError("asyncloop driver failed rc=%s: %s" % (rc, p.stdout.decode()[-1500:] if rc != "timeout" else ""))
         pending = nxt
@@ -307,10 +314,13 @@ def run(chk, replay=None):
         methods = ["THREAD"] if backend == "Debug" else ["THREAD", "TASK"]
         execs = [{"method": rnd.choice(methods), "script": rand_script(rnd, 6), "mode": "free", "seed": rnd.randint(1, 10 ** 6), "sched": [], "settle_ms": 2000}
                  for _ in range(nfree)]
-        res = run_driver(bexe, execs, "c03-free-" + backend)
+        res = run_driver(bexe, execs, "c03-free-" + backend, timeout=180, max_hangs=2)
+        execs = [e for i, e in enumerate(execs) if not res[i].get("skipped")]
+        res = {k: v for k, v in enumerate(r for _, r in sorted(res.items()) if not r.get("skipped"))}
+        nfree_run = len(execs)
         acc, nrej, _, _, _ = validate_and_report(chk, execs, res, "free-" + backend, backend, False)
-        chk.log("free-running %s: %d executions, contract %d accepted / %d rejected" % (backend, nfree, acc, nrej))
-        chk.cov["evaluations"] += nfree
+        chk.log("free-running %s: %d executions, contract %d accepted / %d rejected" % (backend, nfree_run, acc, nrej))
+        chk.cov["evaluations"] += nfree_run
         chk.cov["distinct_nontrivial"] += len({json.dumps([e["method"], e["script"], e["seed"]]) for e in execs})
     chk.cov["rule"] = ("executions of the real AsyncLoop: (a) one forced schedule per path of a transition cover of TLC's state graph of the mechanism model, "
                        "(b) seeded random serialised schedules over random scripts, (c) free-running runs with seeded delays at the hook points on 4 backends; "
